@@ -2,7 +2,7 @@
 import ast
 
 from ..model import AnalysisError, dotted, unparse
-from ..util import U, enum_paths, walk_no_nested, is_yield_call
+from ..util import FACTS, FACTS_I, U, enum_paths, walk_no_nested, is_yield_call
 from ..paths import call_attr, call_name
 
 SP = 'scales/pool/singleton.py'
@@ -10,7 +10,7 @@ SK = 'scales/sink.py'
 
 
 def facts(ev, upto=None):
-  return [(U(e.node).replace(' ', ''), e.info) for e in (ev if upto is None else ev[:upto]) if e.kind == 'cond']
+  return FACTS(ev if upto is None else ev[:upto])
 
 
 def check(ctx):
@@ -134,7 +134,7 @@ def r2(ctx):
     inc = [i for i, e in enumerate(ev) if e.kind == 'stmt' and isinstance(e.node, ast.AugAssign) and U(e.node.target) == 'self._ref_count']
     ok_inc = len(inc) == 1 and isinstance(ev[inc[0]].node.op, ast.Add) and U(ev[inc[0]].node.value) == '1'
     opens = [i for i, e in enumerate(ev) if e.kind == 'call' and U(e.node.func) == 'self.next_sink.Open']
-    fs = [(U(e.node).replace(' ', ''), e.info, i) for i, e in enumerate(ev) if e.kind == 'cond']
+    fs = FACTS_I(ev)
     first = any(cn == 'self._ref_count==1' and t and inc and i > inc[0] for cn, t, i in fs)
     ok = ok_inc and (len(opens) == 1) == first and (not opens or opens[0] > inc[0])
     if opens:
@@ -148,7 +148,7 @@ def r2(ctx):
   for ev, ex in enum_paths(ctx, c):
     dec = [i for i, e in enumerate(ev) if e.kind == 'stmt' and isinstance(e.node, ast.AugAssign) and U(e.node.target) == 'self._ref_count']
     closes = [i for i, e in enumerate(ev) if e.kind == 'call' and U(e.node.func) == 'self.next_sink.Close']
-    fs = [(U(e.node).replace(' ', ''), e.info, i) for i, e in enumerate(ev) if e.kind == 'cond']
+    fs = FACTS_I(ev)
     zero_before = any(cn in ('self._ref_count==0', 'self._ref_count<=0') and t and (not dec or i < dec[0]) for cn, t, i in fs)
     if zero_before:
       n_early += 1
@@ -178,7 +178,7 @@ def r3(ctx):
   why = 'the same sharing key yields the same sink for as long as any holder is alive; a falsy key means "do not share"'
   seen = set()
   for ev, ex in enum_paths(ctx, f):
-    fs = [(U(e.node).replace(' ', ''), e.info) for e in ev if e.kind == 'cond']
+    fs = FACTS(ev)
     creates = [e for e in ev if e.kind == 'call' and U(e.node.func) == 'self.next_provider.CreateSink']
     wraps = [e for e in ev if e.kind == 'call' and U(e.node.func) == 'RefCountedSink']
     stores = [e for e in ev if e.kind == 'stmt' and isinstance(e.node, ast.Assign) and isinstance(e.node.targets[0], ast.Subscript) and U(e.node.targets[0].value) == 'self._cache']
